@@ -48,7 +48,7 @@ LEVEL_NOTE = (
 )
 CLASSES = [
     "nested_in_job", "nested_in_subdir", "symlinked_job", "relative_path", "search_false", "legacy_rc_file_inside_project", "unparseable_file_named_signac_rc",
-    "nonexistent", "depth>=4", "init_existing", "init_fresh", "two_ids_on_path", "jobdir_is_project",
+    "nonexistent", "depth>=4", "init_existing", "init_fresh", "two_ids_on_path", "jobdir_is_project", "os_pathlike_argument",
 ]
 ASSUMPTIONS = [
     "no ancestor of the scratch root is a signac project and the scratch path contains no 32-hex run (checked per case)",
@@ -458,9 +458,17 @@ def _run_tree(case, ctx, m, root, signac):
             if HEX32.search(c) and not HEX32.fullmatch(c):
                 raise HarnessError(f"generated name {c!r} contains an id-like run")
 
-    # 1. absolute queries
+    # 1. absolute queries (as str, or -- case flag -- as an os.PathLike object, which cannot carry the trailing spelling)
+    pathlike = bool(case.get("pathlike"))
+    if pathlike:
+        import pathlib
+
+        cl.add("os_pathlike_argument")
     for lex in all_targets:
-        query(lex, P(lex) + spell, "abs")
+        if pathlike:
+            query(lex, pathlib.Path(P(lex)), "PathLike")
+        else:
+            query(lex, P(lex) + spell, "abs")
 
     # 2. relative queries from drawn working directories, and path=None
     lexdirs = lexical_dirs(m)
@@ -492,6 +500,8 @@ def _run_tree(case, ctx, m, root, signac):
         if cwds and i % 2 == 1:
             os.chdir(P(cwds[0]))
             arg = os.path.relpath(P(p), os.getcwd())
+        elif pathlike:
+            arg = pathlib.Path(arg)
         st_, got = _call(lambda: signac.init_project(arg))
         os.chdir(root)
         if st_ != "ok":
@@ -514,7 +524,7 @@ def _run_tree(case, ctx, m, root, signac):
     for p in chosen[:2]:
         cl.add("init_fresh")
         before = fsutil.snapshot(root)
-        st_, got = _call(lambda: signac.init_project(P(p)))
+        st_, got = _call(lambda: signac.init_project(pathlib.Path(P(p)) if pathlike else P(p)))
         after = fsutil.snapshot(root)
         name = "/".join(p) or "."
         if st_ != "ok":
@@ -653,6 +663,7 @@ def case_strategy():
             "cwds": st.lists(st.integers(0, 60), min_size=1, max_size=2),
             "fresh": st.lists(st.integers(0, 30), max_size=2),
             "spell": st.sampled_from([0, 0, 1, 2]),
+            "pathlike": st.sampled_from([False, False, False, True]),
         }
     )
 
@@ -709,6 +720,9 @@ REPRESENTATIVES = [
     ),
     # no project at all
     _case([_d("a", _d("b")), _d(".signac")], cwds=[1], fresh=[3]),
+    # directories given as os.PathLike objects
+    dict(_case([_p("a", 0, ws=[_j(0, ch=[_d("data")])]), _d("b", _d("src"))], cwds=[2], fresh=[1]), pathlike=True),
+    dict(_case([_p("a", 1, ch=[_d("src", _p("b", 2, ws=[_j(1)]))], ws=[_j(0)])], cwds=[3], fresh=[0]), pathlike=True),
 ]
 
 
